@@ -113,6 +113,11 @@ def forward_shape(ctx: Ctx, f: Func, p: PathInfo, param: str) -> Dict[str, Any]:
                 c = g.ifs[0]
                 if isinstance(c, ast.Compare) and len(c.ops) == 1:
                     l, op, rr = c.left, c.ops[0], c.comparators[0]
+                    # `pivot = items[0]` ... `i > pivot`: a local standing for an operand
+                    if src(l) != var and isinstance(l, ast.Name):
+                        l = resolve_local(l, p.env) or l
+                    if src(rr) != var and isinstance(rr, ast.Name) and rr.id != param:
+                        rr = resolve_local(rr, p.env) or rr
                     if isinstance(op, ast.NotIn) and src(l) == var and src(rr) == param:
                         return {"kind": "COMPLEMENT", "universe": uni}
                     if isinstance(op, ast.In) and src(l) == var and src(rr) == param:
@@ -527,7 +532,10 @@ def run(ctx: Ctx, rep: Report, tier: str) -> None:  # noqa: C901
         if st is None:
             continue
         rep.instance()
-        scfg = ctx.cfg(st)
+        from .normalise import normalised
+
+        # a shared "operator + numbers -> line" helper the setter ends in is read in place
+        scfg = ctx.cfg(normalised(ctx, st, "calls,tailcalls"))
 
         def reaches_line(n: Node) -> bool:
             if n.kind == "stmt" and isinstance(n.ast, ast.Assign):
